@@ -340,6 +340,15 @@ def gen_forest(rng, prefix, n, p_nest, maxdepth=3):
             over = rng.choice(cands)
         depth[name] = 0 if over is None else depth[over] + 1
         frames.append({"name": name, "over": over, "stmts": []})
+    # explicit primary-child overrides (`under`): the clone must keep them like its original
+    kids = {}
+    for f in frames:
+        if f["over"]:
+            kids.setdefault(f["over"], []).append(f["name"])
+    for f in frames:
+        ks = kids.get(f["name"], [])
+        if len(ks) > 1 and rng.random() < 0.6:
+            f["under"] = rng.choice(ks[1:])
     return frames
 
 
@@ -366,8 +375,12 @@ VIA_MOOT = [None, "mb", ".abs.mb", "framer.me.mb", "framer.me.mb", "framer.me.mb
 
 def gen_moot(rng, name, later, budget, uniq, with_me=True, with_main=True):
     """later: list of (moot name, size) that may be nested; budget: max nested size"""
-    nfr = rng.randint(1, 4)
-    frames = gen_forest(rng, "x", nfr, 0.35)
+    if rng.random() < 0.3:      # a bushier forest: several children per frame, so that `under` overrides occur
+        nfr = rng.randint(3, 5)
+        frames = gen_forest(rng, "x", nfr, 0.7)
+    else:
+        nfr = rng.randint(1, 4)
+        frames = gen_forest(rng, "x", nfr, 0.35)
     names = [f["name"] for f in frames]
     first = rng.choice(names) if rng.random() < 0.25 else None
     root = root_of(frames, first or names[0])
@@ -703,6 +716,8 @@ def render_framer(fr, env, mode, lines, ind="  "):
     lines.append(ind + head)
     for f in fr["frames"]:
         lines.append(ind * 2 + "frame %s" % f["name"] + (" in %s" % f["over"] if f.get("over") else ""))
+        if f.get("under"):
+            lines.append(ind * 3 + "under %s" % f["under"])
         cur = "native"
         for s in f["stmts"]:
             t = stmt_text(s, env, mode)
@@ -802,7 +817,7 @@ def expand(case, reared):
              "env": {"hostframer": hostname, "hostframe": hostframe, "eff": eff}, "frames": []}
         defs.append(d)
         for f in moot["frames"]:
-            nf = {"name": f["name"], "over": f.get("over"), "stmts": []}
+            nf = {"name": f["name"], "over": f.get("over"), "under": f.get("under"), "stmts": []}
             idx = 0
             for s in f["stmts"]:
                 if s["k"] == "aux":
@@ -820,7 +835,7 @@ def expand(case, reared):
         nm = dict(m)
         nm["frames"] = []
         for f in m["frames"]:
-            nf = {"name": f["name"], "over": f.get("over"), "stmts": []}
+            nf = {"name": f["name"], "over": f.get("over"), "under": f.get("under"), "stmts": []}
             idx = 0
             for s in f["stmts"]:
                 if s["k"] == "aux":
